@@ -1191,3 +1191,156 @@ def loadtxt(fname, delimiter=None, ndmin=0, **kw):
     if len(rows) == 1 and ndmin < 2:
         return SArr.from_list(rows[0], dtype="f")
     return SArr.from_list(rows, dtype="f")
+
+
+# ---------------------------------------------------------------------------
+# further numpy surface (not used by the pinned tree, but plausible in edits of it)
+
+def fromiter(it, dtype=float, count=-1):
+    vals = list(it)
+    if count is not None and count >= 0:
+        vals = vals[:count]
+    dt = _dtype_of(dtype)
+    if dt == "i":
+        vals = [core.sym_trunc(v) if isinstance(v, (SymReal, float)) else v for v in vals]
+    elif dt == "f":
+        vals = [float(v) if isinstance(v, int) and not isinstance(v, bool) else v for v in vals]
+    return SArr(Buf(vals), (len(vals),), dtype=dt)
+
+
+def full(shape, fill_value, dtype=None):
+    a = zeros(shape, dtype)
+    if dtype is None:
+        a.dtype = _infer_dtype([fill_value])
+    a.fill(fill_value)
+    return a
+
+
+def arange(*args):
+    vals = list(range(*[_idx(a) for a in args]))
+    return SArr(Buf(vals), (len(vals),), dtype="i")
+
+
+def concatenate(tup, axis=0):
+    arrs = [asarray(a) for a in tup]
+    if all(a.ndim == 1 for a in arrs):
+        return hstack(arrs)
+    if axis == 0:
+        return vstack(arrs)
+    raise Unsupported("concatenate along axis %r" % (axis,))
+
+
+def square(x):
+    return _ew(x, lambda v: v * v, dtype="f")
+
+
+def zeros_like(a, dtype=None):
+    a = asarray(a)
+    return zeros(a.shape, dtype if dtype is not None else ({"i": int, "f": float, "b": bool}[a.dtype]))
+
+
+def ones_like(a, dtype=None):
+    z = zeros_like(a, dtype)
+    z.fill(1 if z.dtype == "i" else 1.0)
+    return z
+
+
+def empty_like(a, dtype=None):
+    a = asarray(a)
+    return empty(a.shape, dtype if dtype is not None else ({"i": int, "f": float, "b": bool}[a.dtype]))
+
+
+def where(cond, a=None, b=None):
+    if a is None:
+        return (argwhere(cond).flatten(),)
+    cond = asarray(cond)
+    av = _bcast_to(a, cond.shape)
+    bv = _bcast_to(b, cond.shape)
+    vals = [sym_ite(c, x, y) for c, x, y in zip(cond.flat(), av, bv)]
+    return SArr(Buf(vals), cond.shape, dtype=_infer_dtype(vals))
+
+
+def isnan(x):
+    return _ew(x, lambda v: _isnan(v), dtype="b")
+
+
+def any(a):
+    acc = False
+    for v in asarray(a).flat():
+        acc = acc | v if is_sym(acc) or is_sym(v) else (bool(acc) or bool(v))
+    return acc
+
+
+def all(a):
+    acc = True
+    for v in asarray(a).flat():
+        acc = acc & v if is_sym(acc) or is_sym(v) else (bool(acc) and bool(v))
+    return acc
+
+
+def dot(a, b):
+    a, b = asarray(a), asarray(b)
+    if a.ndim != 1 or b.ndim != 1 or a.shape != b.shape:
+        raise Unsupported("dot of non-vectors")
+    return _sumlist([_mul(x, y) for x, y in zip(a.flat(), b.flat())])
+
+
+def prod(a):
+    acc = 1
+    for v in asarray(a).flat():
+        acc = _mul(acc, v)
+    return acc
+
+
+def cumsum(a):
+    vals, acc = [], 0
+    for v in asarray(a).flat():
+        acc = _add(acc, v)
+        vals.append(acc)
+    return SArr(Buf(vals), (len(vals),), dtype=_infer_dtype(vals))
+
+
+def clip(a, lo, hi):
+    return maximum(minimum(a, hi), lo)
+
+
+def argmax(a):
+    vals = asarray(a).flat()
+    best = 0
+    for k in range(1, len(vals)):
+        if bool(vals[k] > vals[best]):
+            best = k
+    return best
+
+
+def argmin(a):
+    vals = asarray(a).flat()
+    best = 0
+    for k in range(1, len(vals)):
+        if bool(vals[k] < vals[best]):
+            best = k
+    return best
+
+
+def argsort(a, kind=None):
+    vals = asarray(a).flat()
+    idx = list(range(len(vals)))
+    # stable insertion sort; every comparison is decided by the solver (forks on symbolic values)
+    for i in range(1, len(idx)):
+        j = i
+        while j > 0 and bool(vals[idx[j]] < vals[idx[j - 1]]):
+            idx[j], idx[j - 1] = idx[j - 1], idx[j]
+            j -= 1
+    return SArr(Buf(idx), (len(idx),), dtype="i")
+
+
+def sort(a):
+    a = asarray(a)
+    order = argsort(a).flat()
+    vals = a.flat()
+    return SArr(Buf([vals[i] for i in order]), (len(order),), dtype=a.dtype)
+
+
+int_ = int64
+float_ = float64
+bool_ = bool
